@@ -82,9 +82,13 @@ def write_hists(res, path, keep=None, seed=1):
     return n, tot, samples
 
 
-def replay_file(ctx, path, tag, workers=None):
+def replay_file(ctx, path, tag, workers=None, base=None):
+    """base: force the version concretisation (abstract version v > 0 of generation 0 ->
+    base + v); default: seeded per history among {0, 65534, 65535, 2^31}."""
     out = ctx.path("out_%s.ndjson" % tag)
     env = {"VERIF_IN": path, "VERIF_OUT": out}
+    if base is not None:
+        env["VERIF_BASE"] = base
     if workers:
         env["VERIF_WORKERS"] = workers
     rc, text, wall = ctx.go_test(MOD, PKG, [HARNESS], "^TestVerifGossipReplay$", env=env, tag=tag,
@@ -262,12 +266,13 @@ def process_bad(ctx, acc):
         one = ctx.path("one.ndjson")
         with open(one, "w") as f:
             f.write(json.dumps(hist) + "\n")
-        summ, bad, _ = replay_file(ctx, one, "repro", workers=1)
+        summ, bad, _ = replay_file(ctx, one, "repro", workers=1, base=b.get("base", 0))
         if not bad or bad[0]["r"] != "violation" or (bad[0].get("sig") or "") != (b.get("sig") or ""):
             raise vlib.Inconclusive("violation did not reproduce: %s" % b)
         cut = hist[:b["step"] + 1] if b["step"] >= 0 else hist
-        what = "gossip %s at step %d of [%s]: expected %s; real stores: %s (%d histories)" % (
-            b.get("kind"), b["step"], short(cut), b.get("exp"), b.get("act"), len(items))
+        what = "gossip %s at step %d of [%s] (generation-0 versions v>0 concretised as %d+v): expected %s; " \
+               "real stores (abstract): %s (%d histories)" % (
+                   b.get("kind"), b["step"], short(cut), b.get("base", 0), b.get("exp"), b.get("act"), len(items))
         obj = {"history": hist, "mismatch": b, "count": len(items),
                "cmd": "python3 tools/verif.py replay C12 <this file>"}
         if ctx.report(sig, what, obj) == "known" and not ctx.replay_path and not ctx.selftest:
@@ -281,10 +286,12 @@ def run(ctx):
     thorough = ctx.tier == "thorough"
     acc = Acc()
     # ------------------------------------------------------------ 1. design level (TLC)
-    design(ctx, acc, "n2_full", mc_cfg(2, 2 if thorough else 1, 1, 1, 2, ALL_TOPOS))
+    # quick: the coverage (vacuity) guard rides on n2_full; thorough: on its own small config
+    design(ctx, acc, "n2_full", mc_cfg(2, 2 if thorough else 1, 1, 1, 2, ALL_TOPOS), coverage=not thorough)
     design(ctx, acc, "n3_seq", mc_cfg(3, 1, 1 if thorough else 0, 0, 1, ("hub",) if thorough else ("hub", "self")))
     design(ctx, acc, "n3_overlap", mc_cfg(3, 0, 0, 0, 2, ("hub", "self")))
-    design(ctx, acc, "n2_coverage", mc_cfg(2, 1, 1, 1, 2, ("hub", "skew")), coverage=True, count=False)
+    if thorough:
+        design(ctx, acc, "n2_coverage", mc_cfg(2, 1, 1, 1, 2, ("hub", "skew")), coverage=True, count=False)
     if thorough:
         design(ctx, acc, "n3_overlap_restart", mc_cfg(3, 0, 1, 0, 2, ("hub",)))
         design(ctx, acc, "n3_overlap_tick", mc_cfg(3, 1, 0, 0, 2, ("hub", "skew")))
@@ -360,6 +367,8 @@ def run(ctx):
     }
     assumptions = [
         "TLC/SANY; Go toolchain; harness gate transport (unary request/response) instead of freighter transports",
+        "heartbeat versions are concretised per history (seeded): generation-0 versions v>0 as base+v with base in "
+        "{0, 65534, 65535, 2^31}; later generations start again at 0 (Heartbeat.Restart)",
         "sequences only: steps inside one node are atomic (store.Merge/SetNode are copy-modify-set; concurrent "
         "handler/tick races inside one node are outside C12's quantifier)",
         "owner state changes bump the owner's heartbeat version (heartbeat.go contract); no production code "
@@ -371,7 +380,7 @@ def run(ctx):
     if not unknown:
         # vacuity guards: the mechanisms the property talks about were exercised
         need = ["Exchanges", "Ack2", "NoAck2", "Overlaps", "Drops", "Restarts", "Ticks", "States",
-                "ConvChecks", "ConvHeld", "Superseded"]
+                "ConvChecks", "ConvHeld", "Superseded", "BigVer"]
         missing = [k for k in need if not st.get(k)]
         if missing:
             ctx.finish("model_checking", cov, assumptions)
@@ -393,7 +402,7 @@ def replay(ctx, path):
     one = ctx.path("one.ndjson")
     with open(one, "w") as f:
         f.write(json.dumps(obj["history"]) + "\n")
-    summ, bad, _ = replay_file(ctx, one, "replay", workers=1)
+    summ, bad, _ = replay_file(ctx, one, "replay", workers=1, base=obj.get("mismatch", {}).get("base", 0))
     if bad and bad[0]["r"] == "violation":
         import re
         for k in ctx._known:
@@ -439,7 +448,7 @@ def selftest(ctx):
         one = ctx.path("st_%s.ndjson" % name)
         with open(one, "w") as f:
             f.write(json.dumps(h) + "\n")
-        summ, bad, _ = replay_file(ctx, one, "st_" + name, workers=1)
+        summ, bad, _ = replay_file(ctx, one, "st_" + name, workers=1, base=65535)
         got = bad[0]["r"] if bad else "ok"
         print("selftest %-14s expected %-5s got %-5s %s" % (name, want, got, (bad[0].get("kind") if bad else "")))
         okall = okall and got == want
